@@ -379,6 +379,56 @@ func checkC20(c *Ctx) {
 	}
 	R.min("C20.owner", 3)
 
+	// ---- C20.channels: each bookkeeping event has one source - registrations come from spawnProcess, exits from the
+	// goroutine that waits for the process, state reports from the pipe reader (an exit reported twice is replaced twice)
+	senders := map[string]string{"addChan": "pkg/server.ZnPMServer.spawnProcess", "delChan": "pkg/server.ZnPMServer.spawnProcess", "updateChan": "pkg/server.ZnPMServer.readNamedPipe"}
+	nSend := 0
+	for _, g := range su.srcFuncs("pkg/server") {
+		root := g
+		for root.Parent() != nil {
+			root = root.Parent()
+		}
+		for _, in := range instrsOf(g) {
+			sd, ok := in.(*ssa.Send)
+			if !ok {
+				continue
+			}
+			ch := containerFieldOf(sd.Chan)
+			if i := strings.LastIndex(ch, "."); i >= 0 {
+				ch = ch[i+1:]
+			}
+			want, tracked := senders[ch]
+			if !tracked {
+				continue
+			}
+			nSend++
+			okS := su.fname(root) == want
+			if !okS {
+				for h := range helpersOfAllowed(su, []string{"pkg/server"}, func(name string) bool { return name == want }) {
+					if h == su.fname(root) {
+						okS = true
+					}
+				}
+				// a named function started as a goroutine by the owner (closure turned into a function)
+				for _, cs := range su.staticCallers(root) {
+					if _, isGo := cs.(*ssa.Go); isGo {
+						top := cs.Parent()
+						for top.Parent() != nil {
+							top = top.Parent()
+						}
+						if su.fname(top) == want {
+							okS = true
+						}
+					}
+				}
+			}
+			R.check(okS, "C20.channels", su.fname(root)+" sends on "+ch, su.pos(sd.Pos()), "sent by "+shortName(want), "an event is sent on "+ch+" from "+su.fname(root)+" as well: the bookkeeping goroutine sees the same worker event twice (e.g. one exit deleted and replaced twice: the pool exceeds --max-procs)")
+		}
+	}
+	if nSend < 3 {
+		R.viol("C20.channels", "instances", "", fmt.Sprintf("expected sends on addChan, delChan and updateChan, found %d", nSend))
+	}
+
 	// ---- C20.counter / C20.cap
 	f := su.ssaFunc("pkg/server", "ZnPMServer.maintainChildState")
 	if f == nil {
@@ -435,6 +485,35 @@ func checkC20(c *Ctx) {
 			key := fmt.Sprintf("maintainChildState:refCount=%s#%d", desc, kinds[desc])
 			R.check(okV, "C20.counter", key, su.pos(st.Pos()), "the counter moves relative to its previous value (reservations of in-flight spawns are kept)",
 				"refCount is overwritten with "+desc+": head-room reserved for spawns still in flight is forgotten, the next scale-up reserves it again and the pool can exceed --max-procs")
+			// an increase is a reservation for spawns this very branch starts: it is followed by the goroutine that spawns
+			// them before the next event is taken (a worker that registers itself was already counted when it was planned)
+			increases := false
+			switch x := st.Val.(type) {
+			case *ssa.BinOp:
+				increases = x.Op == token.ADD
+			case *ssa.Phi:
+				increases = true
+			}
+			if increases && okV {
+				isSpawnGo := func(in ssa.Instruction) bool {
+					g, isGo := in.(*ssa.Go)
+					if !isGo {
+						return false
+					}
+					for _, t := range closureTargets(g) {
+						if len(su.callsNamed(t, "pkg/server.ZnPMServer.spawnProcess")) > 0 {
+							return true
+						}
+					}
+					if sc := g.Call.StaticCallee(); sc != nil && len(su.callsNamed(sc, "pkg/server.ZnPMServer.spawnProcess")) > 0 {
+						return true
+					}
+					return false
+				}
+				isSelect := func(in ssa.Instruction) bool { _, ok := in.(*ssa.Select); return ok }
+				okRes := reachableAvoiding(st.Block(), instrIndex(st)+1, isSelect, isSpawnGo) == nil
+				R.check(okRes, "C20.counter", key+":reserves-for-own-spawns", su.pos(st.Pos()), "the increase is followed by the goroutine that starts the reserved workers", "refCount is increased on a branch that starts no worker: workers are counted twice (once when planned, once here), the counter drifts above the real pool size and replacements stop (the pool falls below --init-procs)")
+			}
 		}
 		R.min("C20.counter", 4)
 		// cap: a comparison finalProcNum > MaxProcs clamps, and addNum = final − current
